@@ -50,39 +50,39 @@ example : keys (mergeParams ["b"] [("c", {}), ("b", { typ := some "int" }), ("a"
 
 /-- reviewed sites (digest, where and why the iteration order cannot reach an output) -/
 def registry : List (Nat × String) := [
-  (663151091532491638, "class_/emit.py:class_ — param_names: only `in` tests inside RewriteName / passed to emit helpers that test membership"),
+  (336956630368707757, "class_/emit.py:class_ — param_names: only `in` tests inside RewriteName / passed to emit helpers that test membership"),
   (806408740012261703, "class_/parse.py:class_ — an empty `set()` literal used as a *value* (inferred default), never iterated"),
   (185285916356625729, "compound/exmod.py:_create_sqlalchemy_mod — module __all__ as frozenset: only `symbol in all_` (symbol_to_import)"),
   (583476392577071863, "compound/exmod.py:_create_sqlalchemy_mod — module __all__ as frozenset: only `symbol in all_` (symbol_to_import)"),
   (537525673070601648, "compound/exmod_utils.py:get_module_contents — __all__ of the analysed module as frozenset: membership filter over an ordered body"),
-  (414316033808778151, "docstring/utils/parse_utils.py:_union_literal_from_sentence — character class: `ch in …`"),
-  (225904924066207758, "json_schema/parse.py:json_schema — `required` set: `name in required` per property"),
-  (46673495972903218, "shared/ast_utils.py:<module> — module __all__ tables: only `symbol in all_`"),
-  (789646021026406775, "shared/ast_utils.py:<module> — module __all__ tables: only `symbol in all_`"),
-  (404327122439469531, "shared/ast_utils.py:<module> — module __all__ tables: only `symbol in all_`"),
-  (427764370542485708, "shared/ast_utils.py:<module> — module __all__ tables: only `symbol in all_`"),
-  (570103820694401388, "shared/ast_utils.py:optimise_imports — `seen` set: add + membership while iterating an ordered list"),
-  (364134660898543020, "shared/ast_utils.py:deduplicate_sorted_imports — `seen` set: add + membership while iterating an ordered list"),
-  (755871044157123673, "shared/ast_utils.py:deduplicate — `seen` set: add + membership while iterating an ordered list"),
-  (463743076233611138, "shared/cst_utils.py:<module> — math_operators: consumed by `any(op in s for op in …)` (order-insensitive)"),
-  (690914132127792239, "shared/cst_utils.py:<module> — augassign: consumed by `any(…)` (order-insensitive)"),
+  (101061316269406112, "docstring/utils/parse_utils.py:_union_literal_from_sentence — character class: `ch in …`"),
+  (241720279117382252, "json_schema/parse.py:json_schema — `required` set: `name in required` per property"),
+  (562024035350071409, "shared/ast_utils.py:<module> — module __all__ tables: only `symbol in all_`"),
+  (555948964561356408, "shared/ast_utils.py:<module> — module __all__ tables: only `symbol in all_`"),
+  (203406008864475273, "shared/ast_utils.py:<module> — module __all__ tables: only `symbol in all_`"),
+  (759802141265832113, "shared/ast_utils.py:<module> — module __all__ tables: only `symbol in all_`"),
+  (865956361668120950, "shared/ast_utils.py:optimise_imports — `seen` set: add + membership while iterating an ordered list"),
+  (211767539187288469, "shared/ast_utils.py:deduplicate_sorted_imports — `seen` set: add + membership while iterating an ordered list"),
+  (269823533545856997, "shared/ast_utils.py:deduplicate — `seen` set: add + membership while iterating an ordered list"),
+  (51399868109562746, "shared/cst_utils.py:<module> — math_operators: consumed by `any(op in s for op in …)` (order-insensitive)"),
+  (41432057410129547, "shared/cst_utils.py:<module> — augassign: consumed by `any(…)` (order-insensitive)"),
   (454631026501349444, "shared/cst_utils.py:<module> — key of multicontains2statement: `statement_frozenset & key == key`"),
   (725405777427296573, "shared/cst_utils.py:<module> — key of multicontains2statement: `statement_frozenset & key == key`"),
-  (1087656504727210522, "shared/docstring_utils.py:<module> — TOKENS_SET: `in` and `any(filter(startswith, …))` (order-insensitive)"),
+  (43819281039222171, "shared/docstring_utils.py:<module> — TOKENS_SET: `in` and `any(filter(startswith, …))` (order-insensitive)"),
   (196384230917939543, "shared/emit/file.py:file — `target_versions=set()` option value passed to black"),
   (174412712244795379, "shared/parse/utils/parser_utils.py:merge_params — merge_params `&` loop: iterations commute — theorem C10.merge_deterministic"),
-  (841821735310226025, "shared/parse/utils/parser_utils.py:_join_non_none — _join_non_none: builds a dict from a set, then `primacy.update`; only the key order *inside one ParamVal* can vary and no emitter iterates a ParamVal (checked by the hash-seed differential with inner key order ignored)"),
+  (531708822156616714, "shared/parse/utils/parser_utils.py:_join_non_none — _join_non_none: builds a dict from a set, then `primacy.update`; only the key order *inside one ParamVal* can vary and no emitter iterates a ParamVal (checked by the hash-seed differential with inner key order ignored)"),
   (813057370245711194, "shared/pure_utils.py:all_dunder_for_module — package-name set: membership"),
-  (562735410588237739, "shared/pure_utils.py:ensure_valid_identifier — identifier character class: membership"),
+  (195094877199674373, "shared/pure_utils.py:ensure_valid_identifier — identifier character class: membership"),
   (406841448383492112, "shared/pure_utils.py:<module> — inner frozenset feeding the DUNDERS frozenset (set → set)"),
   (612888376805907351, "sqlalchemy/utils/emit_utils.py:update_with_imports_from_columns — inline frozenset used through `.__contains__`; the surrounding candidates are `sorted(frozenset(…))`"),
-  (559139309206094679, "sqlalchemy/utils/parse_utils.py:<module> — sqlalchemy type-name table: membership"),
-  (714709335938653196, "compound/openapi/gen_routes.py:upsert_routes — missing routes: `sorted(…, key={'post':0,'get':1,'update':2,'delete':3}.__getitem__)`; the key is injective on the method names, so the order is total"),
+  (247486285756616648, "sqlalchemy/utils/parse_utils.py:<module> — sqlalchemy type-name table: membership"),
+  (843596849001816793, "compound/openapi/gen_routes.py:upsert_routes — missing routes: `sorted(…, key={'post':0,'get':1,'update':2,'delete':3}.__getitem__)`; the key is injective on the method names, so the order is total"),
   -- `literal_eval` of a default VALUE: a real set exists only when the user's default is itself a set display; then its hash
   -- order does reach emitted text (KNOWN ORDER LEAK, finding C10-set-display-default; witnessed by the hash-seed differential).
-  (588231627510000959, "shared/ast_utils.py:_infer_type_and_default_from_quoted — literal_eval of a default value (KNOWN LEAK for set-display defaults: C10-set-display-default)"),
-  (436791852078054526, "shared/defaults_utils.py:_parse_out_default_and_doc — literal_eval('(<default text>)') converted by int/float/bool/complex/str at once; a set display raises TypeError in those constructors or is rendered by str() (KNOWN LEAK: C10-set-display-default)"),
-  (628456504358391185, "shared/defaults_utils.py:_parse_out_default_and_doc — literal_eval of the text 'True' / 'False' only"),
+  (673066225699975492, "shared/ast_utils.py:_infer_type_and_default_from_quoted — literal_eval of a default value (KNOWN LEAK for set-display defaults: C10-set-display-default)"),
+  (627206203733915998, "shared/defaults_utils.py:_parse_out_default_and_doc — literal_eval('(<default text>)') converted by int/float/bool/complex/str at once; a set display raises TypeError in those constructors or is rendered by str() (KNOWN LEAK: C10-set-display-default)"),
+  (1061223183251078048, "shared/defaults_utils.py:_parse_out_default_and_doc — literal_eval of the text 'True' / 'False' only"),
   (260230328897055764, "shared/docstring_parsers.py:_infer_default — literal_eval of a default AST node (KNOWN LEAK for set-display defaults: C10-set-display-default)")
 ]
 
